@@ -51,22 +51,26 @@ structure Hdr (Key Id Hash : Type) where
   bookkeepers : List Key
   sigData : List Bytes
 
-/-- what a syncing node holds: the headers by height (block store + header cache, reached through the header index) and the
-in-memory `vbftPeerInfoMap` (association list, newest entry first) -/
+/-- what a syncing node holds: the header index (`hdrs[k]` = the header the index maps height `k` to: filled by
+`AddHeader`, overwritten by a committed block), every header reachable by hash (`known`: header cache ∪ block store - a
+header accepted once stays reachable), the in-memory `vbftPeerInfoMap` (association list, newest entry first) and the
+height of the newest committed block -/
 structure Store (Key Id Hash : Type) where
   hdrs : List (Hdr Key Id Hash)
+  known : List (Hdr Key Id Hash)
   peerMap : List (Nat × List Id)
+  blockHeight : Nat
 
 inductive Rej
   | height | prev | prevHeight | ts | json | cfgHeader | noCfg | noMap | fewBk | nonMember | fewMembers | dupBk
-  | sigCount | sigData | sigFail | panic
+  | sigCount | sigData | sigFail | panic | blockHeight | blockRoot
   deriving DecidableEq, Repr
 
 def Rej.name : Rej → String
   | .height => "height" | .prev => "prev" | .prevHeight => "prevheight" | .ts => "ts" | .json => "json"
   | .cfgHeader => "cfgheader" | .noCfg => "nocfg" | .noMap => "nomap" | .fewBk => "fewbk" | .nonMember => "nonmember"
   | .fewMembers => "fewmembers" | .dupBk => "dupbk" | .sigCount => "sigcount" | .sigData => "sigdata"
-  | .sigFail => "sigfail" | .panic => "panic"
+  | .sigFail => "sigfail" | .panic => "panic" | .blockHeight => "blockheight" | .blockRoot => "blockroot"
 
 /-! ## `signature.VerifyMultiSignature` with the reason of a rejection (same loop as `SigCheck.vmsLoop`) -/
 
@@ -94,7 +98,7 @@ def U32 : Nat := 2 ^ 32
 
 /-- `GetHeaderByHash`: header cache, then block store -/
 def byHash {Key Id Hash : Type} [DecidableEq Hash] (st : Store Key Id Hash) (h : Hash) : Option (Hdr Key Id Hash) :=
-  st.hdrs.find? (fun x => x.hash = h)
+  st.known.find? (fun x => x.hash = h)
 
 /-- `GetHeaderByHeight` -/
 def byHeight {Key Id Hash : Type} (st : Store Key Id Hash) (k : Nat) : Option (Hdr Key Id Hash) := st.hdrs[k]?
@@ -192,7 +196,40 @@ def addHeader {Key Sig Id Hash : Type} [DecidableEq Id] [DecidableEq Hash] (v : 
   if h.height ≠ (st.hdrs.length - 1) + 1 then .error .height
   else match verifyHeader v parseSig vf idOf st h with
     | .error e => .error e
-    | .ok st' => .ok { st' with hdrs := st'.hdrs ++ [h] }
+    | .ok st' => .ok { st' with hdrs := st'.hdrs ++ [h], known := st'.known ++ [h] }
+
+/-- `headerIndexCache.setHeaderIndex(height, hash)`: overwrite the entry of an indexed height, or extend the index -/
+def setIndex {α : Type} (l : List α) (k : Nat) (a : α) : List α := if k < l.length then l.set k a else l ++ [a]
+
+/-- `AddBlock` for a block with no transaction (the sync path for blocks; `SubmitBlock` runs the same steps).  Returns the
+store afterwards and the verdict (`none` = nil error).  `rootOK`: `header.BlockRoot` equals the ledger's block root.
+* a block at or below the committed height: `return nil`, nothing happens;
+* `verifyHeader` - the same function `AddHeader` runs, on the same store: header sync may be ahead, so the height of the
+  block may already be indexed (with another header);
+* `saveBlock` → `submitBlock`: the block-root comparison, then the commit (`setHeaderIndex` overwrites the index entry).
+`.asShipped`: `verifyHeader` has already written `vbftPeerInfoMap[height]` when the block-root comparison fails.
+`.sound`: the peer map changes only when the block is committed. -/
+def addBlock {Key Sig Id Hash : Type} [DecidableEq Id] [DecidableEq Hash] (v : Variant)
+    (parseSig : Bytes → Option Sig) (vf : Key → Hash → Sig → VRes) (idOf : Key → Id)
+    (st : Store Key Id Hash) (h : Hdr Key Id Hash) (rootOK : Bool) : Store Key Id Hash × Option Rej :=
+  if h.height ≤ st.blockHeight then (st, none)
+  else if h.height ≠ st.blockHeight + 1 then (st, some .blockHeight)
+  else match verifyHeader v parseSig vf idOf st h with
+    | .error e => (st, some e)
+    | .ok st1 =>
+      if ¬ rootOK then
+        (match v with
+          | .asShipped => ({ st with peerMap := st1.peerMap }, some .blockRoot)
+          | .sound => (st, some .blockRoot))
+      else ({ st1 with hdrs := setIndex st1.hdrs h.height h, known := st1.known ++ [h], blockHeight := h.height }, none)
+
+/-- `AddHeader` as a total step: the store afterwards and the verdict -/
+def stepHeader {Key Sig Id Hash : Type} [DecidableEq Id] [DecidableEq Hash] (v : Variant)
+    (parseSig : Bytes → Option Sig) (vf : Key → Hash → Sig → VRes) (idOf : Key → Id)
+    (st : Store Key Id Hash) (h : Hdr Key Id Hash) : Store Key Id Hash × Option Rej :=
+  match addHeader v parseSig vf idOf st h with
+  | .ok st' => (st', none)
+  | .error e => (st, some e)
 
 /-! ## What the property counts -/
 
